@@ -5,7 +5,9 @@ operations executed on the REAL module state (ampycloud.dynamic.AMPYCLOUD_PRMS, 
 objects, caller-owned frames and dicts). Every history is replayed from a reset module; states are
 de-duplicated by a content digest of (global, every live snapshot, run flags). Reference model: a
 plain nested-dict algebra with deep copies, stepped alongside; after every step the real global, every
-live snapshot and every caller object are compared with the model / their pristine deep copies.
+live snapshot and every caller object are compared with the model / their pristine deep copies; the RESULTS of
+every first run of a chunk are compared with those of the same frame processed alone (fresh fork, default global)
+with the model's snapshot as parameters - an edit of the global after the construction must not show in them.
 """
 import copy
 import os
@@ -13,13 +15,15 @@ import tempfile
 import warnings
 
 from .. import scenes
-from ..digest import obj_digest, frame_digest
+from ..digest import obj_digest, frame_digest, result_digest
+from .C13 import isolated
 
 TITLE = 'caller data, caller parameters and global parameters never modified'
 EXPLORER = 'E2'
 CLAUSES = ['C11.caller_frame', 'C11.caller_dict', 'C11.global', 'C11.snapshot_private', 'C11.later_chunks',
-           'C11.global_edit_after_construct', 'C11.snapshot_edit', 'C11.reset_after_nested_edit', 'C11.extra_column_frame']
-RULE = ('operations: 3 in-place edits of the global (top-level scalar, third-level nested value, list element), 9 constructions '
+           'C11.global_edit_after_construct', 'C11.snapshot_edit', 'C11.reset_after_nested_edit', 'C11.extra_column_frame',
+           'C11.result_from_snapshot', 'C11.result_after_global_edit']
+RULE = ('operations: 4 in-place edits of the global (two top-level scalars, third-level nested value, list element), 9 constructions '
         '(5 frames incl. wrong dtypes / extra columns / clean dtypes + extra columns / odd index / a rich 3-ceilometer scene reaching bundles, splits and the exclusion fall-back x 8 per-call dicts: None, {}, flat, '
         'nested-partial, third-level, list-valued, unsorted list-valued, unknown keys), run(i), 2 in-place edits of a chunk snapshot, reset_prms(), '
         'reset_prms([name]), set_prms(yaml); at most 2 live chunks. All histories up to the depth bound, de-duplicated by content digest. '
@@ -46,6 +50,7 @@ G_EDITS = {
     'G:MSA': (('MSA',), 5000),
     'G:deep': (('LAYERING_PRMS', 'gmm_kwargs', 'scores'), 'AIC'),
     'G:list': (('MIN_SEP_VALS', 0), 123),
+    'G:okta0': (('MAX_HITS_OKTA0',), 1),
 }
 S_EDITS = {
     'frac': (('LOWESS', 'frac'), 0.9),
@@ -166,6 +171,9 @@ class World:
                     c.find_slices(); c.find_layers(); c.metar_msg()
                 else:
                     c.find_slices(); c.find_groups(); c.find_layers(); c.metar_msg()
+                    # what the chunk produced, and the snapshot it must have been produced from (the model's, at this moment)
+                    rec['result'] = result_digest(c)
+                    rec['model_at_run'] = copy.deepcopy(rec['model'])
                 rec['ran'] = True
             elif op.startswith('S:'):
                 _, i, k = op.split(':')
@@ -199,7 +207,36 @@ class World:
                                                  'dtypes_now': [str(t) for t in rec['frame'].dtypes], 'index_now': [repr(x) for x in rec['frame'].index]}))
             if rec['P'] != rec['P0']:
                 bad.append(('C11.caller_dict', {'chunk': i, 'dict_now': rec['P'], 'was': rec['P0']}))
+            if 'result' in rec and not rec.get('judged'):
+                rec['judged'] = True
+                ref = self.reference(rec['fk'], rec['model_at_run'])
+                if ref != rec['result']:
+                    bad.append(('C11.result_from_snapshot', {'chunk': i, 'built_with': [rec['fk'], rec['pk']],
+                                                            'problem': 'the results of this chunk differ from those of the same frame processed, in a process whose '
+                                                                       'global parameters are the packaged defaults, with the chunk\'s own snapshot as parameters'}))
         return bad
+
+    REFS = {}
+
+    def reference(self, fk, snapshot):
+        """The same frame processed ALONE (fresh fork, global parameters put back to the packaged defaults by the harness) with the full
+        snapshot handed over per call."""
+        key = obj_digest([fk, snapshot])
+        if key not in World.REFS:
+            defaults = self.defaults
+            dyn = self.dynamic
+
+            def alone():
+                from ampycloud.data import CeiloChunk
+                dyn.AMPYCLOUD_PRMS.clear()
+                dyn.AMPYCLOUD_PRMS.update(copy.deepcopy(defaults))
+                with warnings.catch_warnings():
+                    warnings.simplefilter('ignore')
+                    c = CeiloChunk(make_frame(fk), prms=copy.deepcopy(snapshot))
+                    c.find_slices(); c.find_groups(); c.find_layers(); c.metar_msg()
+                return result_digest(c)
+            World.REFS[key] = isolated(alone)
+        return World.REFS[key]
 
     def digest(self):
         return obj_digest([self.dynamic.AMPYCLOUD_PRMS, [(r['real'].prms, r['ran'], r['fk']) for r in self.chunks]])
@@ -274,6 +311,11 @@ def run_case(case):
                     hit('C11.global_edit_after_construct')
                 if op.startswith('S:'):
                     hit('C11.snapshot_edit')
+                if op.startswith('R:') and not any(h == op for h in hist[:-1]):
+                    hit('C11.result_from_snapshot')
+                    ci = [k for k, h in enumerate(hist) if h.startswith('C:')][int(op[2:])]
+                    if any(h.startswith(('G:', 'set_prms')) for h in hist[ci + 1:-1]):
+                        hit('C11.result_after_global_edit')
                 if op.startswith('reset') and any(h in ('G:deep', 'G:list', 'set_prms') for h in hist[:-1]):
                     hit('C11.reset_after_nested_edit')
                 for clause, detail in viols:
